@@ -233,7 +233,8 @@ where
             }
             for upper in [false, true] {
                 let want = if upper { &full_u } else { &full_l };
-                for precision in [None, Some((2 * n / 3 + 1).min(65535)), Some((2 * n.saturating_sub(1)).min(65535))] {
+                let precs: &[Option<usize>] = if cfg!(miri) { &[None, Some((2 * n / 3 + 1).min(65535))][..] } else { &[None, Some((2 * n / 3 + 1).min(65535)), Some((2 * n.saturating_sub(1)).min(65535))][..] };
+                for precision in precs.iter().copied() {
                     for (fail_call, capacity) in plans.iter().copied() {
                         let mut sink = Refusing { accepted: String::new(), calls: 0, refusals: 0, fail_call, capacity };
                         std::hint::black_box(poison_stack(0xF5));
